@@ -72,4 +72,13 @@ def bsContractB (xs : List Nat) (x : Nat) : CsrM.Pos → Bool
   | .absent i => decide (i ≤ xs.length) && (xs.take i).all (fun y => decide (y < x)) &&
       (xs.drop i).all (fun y => decide (x < y))
 
+/-! ### `law …` lines (wave 6) -/
+
+/-- `law <name> => ok | VIOLATED <why>` — a law the harness checked against the implementation itself (iterator
+contract, trait views, `VisitMap` / `reset_map`, `clone_from`, `Default`, `Debug`): the only acceptable answer is `ok`;
+anything else (a violation text, a panic inside the law, an unreadable answer) is a failing input of the property -/
+def lawVerdict (name : List String) (impl : String) : String :=
+  if impl == "ok" then "ok"
+  else "SPECFAIL law [" ++ String.intercalate " " name ++ "] does not hold: " ++ impl
+
 end PetgraphModel.C05Scope
